@@ -155,16 +155,6 @@ func ZZC11ArraySlice() {
 	zzWitness("end")
 }
 
-// zzSymString builds a string of n code points. Code point k is symbolic;
-// under the engine this is a rune-vector string.
-func zzSymRunes(n int) []rune {
-	rs := make([]rune, n)
-	for k := 0; k < n; k++ {
-		rs[k] = zzRune("r")
-	}
-	return rs
-}
-
 // ZZC11StringIndex: s[i] on a string with symbolic code points.
 func ZZC11StringIndex() {
 	N := zzParam("N", 3)
